@@ -238,6 +238,7 @@ fn check_unarmor(data: &[u8], fill: usize, rec: &mut Rec) -> Verdict {
 }
 
 pub fn check(_sub: &str, _cfg: &'static dyn Config, input: &Input, rec: &mut Rec) -> Verdict {
+    crate::engine::collect(input);
     match input {
         Input::History { lines } => check_history(lines, rec),
         Input::Payload { bytes } => check_payload(bytes, rec),
@@ -292,6 +293,9 @@ pub fn run(ctx: &mut Ctx) {
         "cargo unifies nom's features across the three wrapper packages, so the no-allocator copy links a nom with std/alloc enabled; the crate's own cfg(feature) gates, which is what the property is about, are exact (DESIGN.md 2.2)".into(),
         "error message texts are never compared".into(),
     ];
+    if ctx.tier == crate::engine::Tier::Thorough {
+        crate::engine::collector_enable();
+    }
     ctx.replay_regressions(check);
     let n = ctx.tier.pick(32_000, 300_000);
     ctx.run_proptest("inorder-groups", &NONE, n, inorder_group_history(), check);
@@ -340,4 +344,5 @@ pub fn run(ctx: &mut Ctx) {
             ctx.sweep_case("payload-capacity-edge", &NONE, &Input::History { lines: vec![Line::new(build::line(1, 1, None, b"A", &p, 0), decode), Line::new(build::line(2, 1, None, b"A", &p, 0), decode), Line::new(build::line(2, 2, None, b"A", b"0", 0), decode)] }, check);
         }
     }
+    ctx.fidelity_pass();
 }
